@@ -122,6 +122,10 @@ package pool
 //@ ensures [no-error-with-hosts]       {C08} !p.skipWhitelist && len(result) > 0 ==> err == nil
 //@ ensures [only-eligible-connected-non-peers] {C08} err == nil && !p.skipWhitelist ==> forall q int :: off(result) <= q && q < off(result) + len(result) ==>
 //@        store.inNodes(store.lastActiveHosts, elems(result)[q]) && elems(result)[q].ID != store.NodeID(nodeID) && !store.hasNode(store.lastNodePeers, elems(result)[q].ID)
+//@ ensures [of-the-requested-kind] {C08} err == nil && requested(p, numRequestHosts) > 0 ==> forall q int :: off(result) <= q && q < off(result) + len(result) ==>
+//@        elems(result)[q].IsHost && (kind == "" || elems(result)[q].Kind == kind)
+//@ ensures [error-only-when-nobody-accepted] {C08} err != nil ==> len(final(accepted)) == 0
+//@ callreq PoolStore.ActiveHosts [asks-the-store-for-the-requested-kind] {C08} : arg0 == old(kind)
 //@ recvinv acceptChan [accepted-hosts-were-asked] : exists k int :: 0 <= k && k < spawncount(0) && v == spawnarg(0, 1)[k]
 //@ modifies effects, clock, lastCallRecv, lastCallMethod, lastCallParams, lastCallOK, lastNodePeers, lastActiveHosts
 //@ loop 0 invariant [lock] !held(p.mu)
